@@ -144,6 +144,12 @@ func (r *RequestContext) Cookie(name string) string {
 }
 
 func (r *RequestContext) Body() any {
+	// a request without a body has an empty body, whatever its content type says
+	// (as for the requests received by the other services)
+	if len(r.reqRawBody) == 0 {
+		return ""
+	}
+
 	if r.savedBody == nil {
 		decoder, err := contenttype.NewDecoder(r.Header("Content-Type"))
 		if err != nil {
